@@ -187,6 +187,8 @@ def run_config(cfg, e):
 
 def replay(case):
     n, T, nc, nsw = case['n'], case['T'], case['nc'], case['nsw']
+    from symx.loader import real_phylib
+    real_phylib()
     from phylib.utils import Bunch
     data = np.array(case['data'], dtype=np.float64).reshape(T, nsw, nc)
     st, sc = case['st'], case['sc']
